@@ -51,6 +51,24 @@ class Obj:
         return "<%s>" % self.name
 
 
+class _NoopLogger(Obj):
+    """stand-in for the logging module / a logger: every method call returns None"""
+
+    def __init__(self):
+        Obj.__init__(self, "logging")
+
+    class _Methods(dict):
+        def __contains__(self, k):
+            return True
+
+        def __getitem__(self, k):
+            return lambda *a, **kw: None
+
+
+NOOP_LOGGER = _NoopLogger()
+NOOP_LOGGER.methods = _NoopLogger._Methods()
+
+
 class Closure:
     def __init__(self, node, env):
         self.node, self.env = node, env
@@ -163,6 +181,9 @@ class Interp:
                 env[a.asname or a.name.split(".")[0]] = self.modules[key]
         elif isinstance(s, ast.Pass):
             pass
+        elif isinstance(s, ast.Assert):
+            if not self.truth(self.expr(s.test, env), s):
+                raise PyRaise("AssertionError", "line %d" % s.lineno)
         elif isinstance(s, ast.Continue):
             raise _Continue()
         elif isinstance(s, ast.Break):
@@ -291,6 +312,8 @@ class Interp:
                 return env[e.id]
             if e.id in self.globals:
                 return self.globals[e.id]
+            if e.id in ("logging", "logger", "log", "_logger", "LOGGER"):
+                return NOOP_LOGGER            # logging has no effect on what is extracted: calls on it are no-ops
             if e.id in ("True", "False", "None"):
                 return {"True": True, "False": False, "None": None}[e.id]
             raise Unsupported("line %d: read of unknown name %s" % (e.lineno, e.id))
